@@ -42,10 +42,10 @@ func (v *vclock) set(i int, c int32) {
 func (v vclock) clone() vclock { return append(vclock(nil), v...) }
 
 type schedEv struct {
-	G     int    `json:"g"`     // goroutine making the transfer
-	Point int    `json:"p"`     // its instrumented sync point counter at that moment
-	Kind  string `json:"k"`     // preempt | block | exit
-	Next  int    `json:"n"`     // goroutine receiving the token
+	G     int    `json:"g"` // goroutine making the transfer
+	Point int    `json:"p"` // its instrumented sync point counter at that moment
+	Kind  string `json:"k"` // preempt | block | exit
+	Next  int    `json:"n"` // goroutine receiving the token
 }
 
 type Gor struct {
@@ -332,7 +332,7 @@ func (e *Engine) raceMeta(key any) *cellMeta {
 	return m
 }
 
-func (e *Engine) raceRead(p *Value, at ssa.Instruction) { e.raceAccess(p, false, at) }
+func (e *Engine) raceRead(p *Value, at ssa.Instruction)  { e.raceAccess(p, false, at) }
 func (e *Engine) raceWrite(p *Value, at ssa.Instruction) { e.raceAccess(p, true, at) }
 func (e *Engine) raceReadObj(o any, at ssa.Instruction) {
 	if e.raceOn {
